@@ -1,7 +1,7 @@
 (* C05 / C18 / C06, translator tie (rounded rectangle, part 2): EllipseQuadrant::new / contains, RoundedRectangle::
    get_confined_corner_quadrant / offset / translate / bounding_box, RoundedRectangleContains::new / contains,
    regenerated from the source on every run by translate/r2c (coq/Gen/SrcRrect2.v), equal Model/Rrect.v through the
-   field-by-field conversions eq_of / rrc_of (Proofs/SrcRrect2.v).  Hypotheses (rr_ok, radius_ok, probe_ok): the extents and
+   field-by-field conversions eq_of / rrc_of (Proofs/SrcRrect2.v).  Hypotheses (src_rr_ok, radius_ok, src_probe_ok): the extents and
    doubled probe offsets the code casts to i32 / i64 are values of i32.  Statements only. *)
 From EG Require Import Base.Prelude Base.Casts Model.Geometry Model.Style Model.Circle Model.Ellipse Model.Rrect.
 From EG Require Import Gen.SrcGeometry Gen.SrcCircle Gen.SrcRrect Gen.SrcRrect2 Proofs.SrcGeometry Proofs.SrcRrect2.
@@ -10,18 +10,18 @@ Theorem C05_src_rrect_quadrant_new_is_model : forall tl0 radius q,
   radius_ok radius -> eq_of (src_EllipseQuadrant_new tl0 radius q) = eq_new tl0 radius q.
 Proof. exact src_eq_new_eq. Qed.
 Theorem C05_src_rrect_quadrant_contains_is_model : forall q p,
-  probe_ok (EllipseQuadrant_center_2x q) p -> src_EllipseQuadrant_contains q p = eq_contains (eq_of q) p.
+  src_probe_ok (EllipseQuadrant_center_2x q) p -> src_EllipseQuadrant_contains q p = eq_contains (eq_of q) p.
 Proof. exact src_eq_contains_eq. Qed.
 Theorem C05_src_rrect_corner_quadrant_is_model : forall r q,
-  rr_ok r -> eq_of (src_RoundedRectangle_get_confined_corner_quadrant r q) = corner_quadrant r q.
+  src_rr_ok r -> eq_of (src_RoundedRectangle_get_confined_corner_quadrant r q) = corner_quadrant r q.
 Proof. exact src_corner_quadrant_eq. Qed.
-Theorem C05_src_rrect_contains_new_is_model : forall r, rr_ok r -> rrc_of (src_RoundedRectangleContains_new r) = rrc_new r.
+Theorem C05_src_rrect_contains_new_is_model : forall r, src_rr_ok r -> rrc_of (src_RoundedRectangleContains_new r) = rrc_new r.
 Proof. exact src_rrc_new_eq. Qed.
 Theorem C05_src_rrect_contains_is_model : forall c p,
-  probe_ok (EllipseQuadrant_center_2x (RoundedRectangleContains_top_left c)) p ->
-  probe_ok (EllipseQuadrant_center_2x (RoundedRectangleContains_top_right c)) p ->
-  probe_ok (EllipseQuadrant_center_2x (RoundedRectangleContains_bottom_left c)) p ->
-  probe_ok (EllipseQuadrant_center_2x (RoundedRectangleContains_bottom_right c)) p ->
+  src_probe_ok (EllipseQuadrant_center_2x (RoundedRectangleContains_top_left c)) p ->
+  src_probe_ok (EllipseQuadrant_center_2x (RoundedRectangleContains_top_right c)) p ->
+  src_probe_ok (EllipseQuadrant_center_2x (RoundedRectangleContains_bottom_left c)) p ->
+  src_probe_ok (EllipseQuadrant_center_2x (RoundedRectangleContains_bottom_right c)) p ->
   src_RoundedRectangleContains_contains c p = rrc_contains (rrc_of c) p.
 Proof. exact src_rrc_contains_eq. Qed.
 Theorem C05_src_rrect_offset_is_model : forall r n,
